@@ -138,81 +138,100 @@ def run(ctx):
             as_list = (len(det_combo := (sp, ep)) and (hash(str(det_combo)) % 2 == 0))
             conv = (lambda x: sorted(x)) if as_list else (lambda x: set(x))
             conv_sp = (lambda x: iter(sorted(x))) if (hash(str((sp, ep, 1))) % 3 == 0 and sp) else conv  # startpoints also as a one-shot iterator
-            m, e = call(tx.miter, c0, c1, conv_sp(sp) if sp is not None else None, conv(ep) if ep is not None else None)
-            ctx.unchanged("miter", c0, spec0)
-            if c1 is not None:
-                ctx.unchanged("miter", c1, spec1)
-            det = {"case": cid, "c0": spec0, "c1": spec1, "startpoints": sp, "endpoints": ep}
-            if e is not None and isinstance(e, ValueError) and ("already in circuit" in str(e) or "overlaps" in str(e)):
-                allnames = set(A0.types) | set(A1.types)
-                made = {"sat"} | {f"dif_{x}" for x in allnames} | {f"c0_{x}" for x in A0.types} | {f"c1_{x}" for x in A1.types}
-                if allnames & made:
-                    ctx.rejected("documented rejection: a node is named like a node the miter creates")
-                    continue
-            if e is not None:
-                ctx.side("miter-raises", False, f"miter:raises:{type(e).__name__}", f"miter raised {e!r}", det)
-                continue
-            tied = shared_sp if sp is None else sp
-            # default: when startpoints is empty/None the code ties the shared startpoints
-            if sp is not None and not sp:
-                tied = shared_sp
-            cmp_ep = shared_ep if not ep else ep
-            M = Net.of(m)
-            ctx.side("miter-inputs", M.inputs() == set(tied), "miter:inputs-not-tied-startpoints", f"miter inputs {sorted(M.inputs())} != tied startpoints {sorted(tied)}", det)
-            ctx.side("miter-output", M.outputs() == {"sat"}, "miter:outputs", f"miter outputs are {sorted(M.outputs())}", det)
-            S = Sem()
-            env0 = {f: S.var(("t!" if f in tied else "a!") + f) for f in A0.free()}
-            env1 = {f: S.var(("t!" if f in tied else "b!") + f) for f in A1.free()}
-            f0, f1 = S.fn(A0, env0), S.fn(A1, env1)
-            D = z3.Or([z3.Xor(f0[x], f1[x]) for x in cmp_ep])
-            envm, names_m, bad_free = {}, {}, []
-            for f in M.free():
-                if f in tied and M.types[f] == "input":
-                    names_m[f] = "t!" + f
-                elif f.startswith("c0_") and f[3:] in A0.types and A0.is_free(f[3:]):
-                    names_m[f] = ("t!" if f[3:] in tied else "a!") + f[3:]
-                elif f.startswith("c1_") and f[3:] in A1.types and A1.is_free(f[3:]):
-                    names_m[f] = ("t!" if f[3:] in tied else "b!") + f[3:]
-                else:
-                    bad_free.append(f)
-                    names_m[f] = "m!" + f
-                envm[f] = S.var(names_m[f])
-            # a tied startpoint left undriven in a copy would show up as a!/b! sharing t! (same variable): to be strict,
-            # undriven copies of TIED startpoints are independent signals
-            for f in M.free():
-                if (f.startswith("c0_") or f.startswith("c1_")) and f[3:] in tied:
-                    names_m[f] = "m!" + f
-                    envm[f] = S.var(names_m[f])
-            if "sat" not in M.types or not M.is_acyclic():
-                ctx.side("miter-sat-node", False, "miter:no-sat-node", "miter has no node `sat` / is cyclic", det)
-                continue
-            fm = S.fn(M, envm)
+            # the argument objects are created once and used for two calls, as a caller who keeps his choice in a variable does;
+            # a None choice is passed as None or (every other time) by leaving the argument out
+            sp_arg = conv_sp(sp) if sp is not None else None
+            ep_arg = conv(ep) if ep is not None else None
+            kw = {}
+            omit = hash(str((sp, ep, 2))) % 2 == 0
+            if sp_arg is not None or not omit:
+                kw["startpoints"] = sp_arg
+            if ep_arg is not None or not omit:
+                kw["endpoints"] = ep_arg
+            for attempt in (0, 1):
+                if attempt == 1 and (sp_arg is not None and iter(sp_arg) is sp_arg):
+                    break  # a one-shot iterator cannot be used twice
+                if attempt == 1 and not (kw.get("startpoints") or kw.get("endpoints") or omit):
+                    break  # nothing a second call could see differently
+                verify_call(ctx, tx, cgsat, c0, c1, kw, spec0, spec1, A0, A1, cid, sp, ep, shared_sp, shared_ep, attempt)
 
-            def replay(model, S=S, M=M, A0=A0, A1=A1, names_m=names_m, tied=tied, cmp_ep=cmp_ep, det=det):
-                bits = sim.model_bits(model, S.vars)
-                vm = sim.evaluate(M, {f: bits.get(v, 0) for f, v in names_m.items()})
-                v0 = sim.evaluate(A0, {f: bits.get(("t!" if f in tied else "a!") + f, 0) for f in A0.free()})
-                v1 = sim.evaluate(A1, {f: bits.get(("t!" if f in tied else "b!") + f, 0) for f in A1.free()})
-                d = int(any(v0[x] != v1[x] for x in cmp_ep))
-                dd = dict(det)
-                dd.update({"valuation": bits, "sat_node": vm["sat"], "endpoints_differ": d})
-                return {"reproduced": vm["sat"] != d, "sig": "miter:sat-not-difference", "what": f"miter `sat`={vm['sat']} but endpoints differ={d}", "detail": dd}
 
-            ok = ctx.prove("miter-sat-iff-differ", [z3.Xor(fm["sat"], D)], replay)
-            if ok:
-                ctx.twin("twin-miter-and", [z3.Xor(fm["sat"], z3.Not(D))])
-            # API verdict: solve(m, {sat: True}) is False <=> the copies agree on every compared endpoint
-            s = z3.Solver()
-            s.add(D)
-            r = s.check()
-            differ = r == z3.sat
-            res, e = call(cgsat.solve, m, {"sat": True})
-            ctx.count("solve_calls")
-            if e is not None:
-                ctx.side("miter-solve-raises", False, sig_solve_raise(M, e), f"solve(miter, sat=1) raised {e!r}", det)
-            else:
-                ctx.side("miter-solve-verdict", (res is False) == (not differ), "miter:solve-verdict", f"solve(miter,{{sat:1}}) returned {'False' if res is False else 'a model'} but circuits {'differ' if differ else 'are equivalent'}", det)
-            ctx.count("pairs_equivalent" if not differ else "pairs_differing")
+def verify_call(ctx, tx, cgsat, c0, c1, kw, spec0, spec1, A0, A1, cid, sp, ep, shared_sp, shared_ep, attempt):
+    m, e = call(tx.miter, c0, c1, **kw)
+    ctx.unchanged("miter", c0, spec0)
+    if c1 is not None:
+        ctx.unchanged("miter", c1, spec1)
+    det = {"case": cid, "c0": spec0, "c1": spec1, "startpoints": sp, "endpoints": ep, "call_number_with_the_same_argument_objects": attempt + 1, "arguments_left_out": sorted({"startpoints", "endpoints"} - set(kw))}
+    if e is not None and isinstance(e, ValueError) and ("already in circuit" in str(e) or "overlaps" in str(e)):
+        allnames = set(A0.types) | set(A1.types)
+        made = {"sat"} | {f"dif_{x}" for x in allnames} | {f"c0_{x}" for x in A0.types} | {f"c1_{x}" for x in A1.types}
+        if allnames & made:
+            ctx.rejected("documented rejection: a node is named like a node the miter creates")
+            return
+    if e is not None:
+        ctx.side("miter-raises", False, f"miter:raises:{type(e).__name__}", f"miter raised {e!r}", det)
+        return
+    tied = shared_sp if sp is None else sp
+    # default: when startpoints is empty/None the code ties the shared startpoints
+    if sp is not None and not sp:
+        tied = shared_sp
+    cmp_ep = shared_ep if not ep else ep
+    M = Net.of(m)
+    ctx.side("miter-inputs", M.inputs() == set(tied), "miter:inputs-not-tied-startpoints", f"miter inputs {sorted(M.inputs())} != tied startpoints {sorted(tied)}", det)
+    ctx.side("miter-output", M.outputs() == {"sat"}, "miter:outputs", f"miter outputs are {sorted(M.outputs())}", det)
+    S = Sem()
+    env0 = {f: S.var(("t!" if f in tied else "a!") + f) for f in A0.free()}
+    env1 = {f: S.var(("t!" if f in tied else "b!") + f) for f in A1.free()}
+    f0, f1 = S.fn(A0, env0), S.fn(A1, env1)
+    D = z3.Or([z3.Xor(f0[x], f1[x]) for x in cmp_ep])
+    envm, names_m, bad_free = {}, {}, []
+    for f in M.free():
+        if f in tied and M.types[f] == "input":
+            names_m[f] = "t!" + f
+        elif f.startswith("c0_") and f[3:] in A0.types and A0.is_free(f[3:]):
+            names_m[f] = ("t!" if f[3:] in tied else "a!") + f[3:]
+        elif f.startswith("c1_") and f[3:] in A1.types and A1.is_free(f[3:]):
+            names_m[f] = ("t!" if f[3:] in tied else "b!") + f[3:]
+        else:
+            bad_free.append(f)
+            names_m[f] = "m!" + f
+        envm[f] = S.var(names_m[f])
+    # a tied startpoint left undriven in a copy would show up as a!/b! sharing t! (same variable): to be strict,
+    # undriven copies of TIED startpoints are independent signals
+    for f in M.free():
+        if (f.startswith("c0_") or f.startswith("c1_")) and f[3:] in tied:
+            names_m[f] = "m!" + f
+            envm[f] = S.var(names_m[f])
+    if "sat" not in M.types or not M.is_acyclic():
+        ctx.side("miter-sat-node", False, "miter:no-sat-node", "miter has no node `sat` / is cyclic", det)
+        return
+    fm = S.fn(M, envm)
+
+    def replay(model, S=S, M=M, A0=A0, A1=A1, names_m=names_m, tied=tied, cmp_ep=cmp_ep, det=det):
+        bits = sim.model_bits(model, S.vars)
+        vm = sim.evaluate(M, {f: bits.get(v, 0) for f, v in names_m.items()})
+        v0 = sim.evaluate(A0, {f: bits.get(("t!" if f in tied else "a!") + f, 0) for f in A0.free()})
+        v1 = sim.evaluate(A1, {f: bits.get(("t!" if f in tied else "b!") + f, 0) for f in A1.free()})
+        d = int(any(v0[x] != v1[x] for x in cmp_ep))
+        dd = dict(det)
+        dd.update({"valuation": bits, "sat_node": vm["sat"], "endpoints_differ": d})
+        return {"reproduced": vm["sat"] != d, "sig": "miter:sat-not-difference", "what": f"miter `sat`={vm['sat']} but endpoints differ={d}", "detail": dd}
+
+    ok = ctx.prove("miter-sat-iff-differ", [z3.Xor(fm["sat"], D)], replay)
+    if ok:
+        ctx.twin("twin-miter-and", [z3.Xor(fm["sat"], z3.Not(D))])
+    # API verdict: solve(m, {sat: True}) is False <=> the copies agree on every compared endpoint
+    s = z3.Solver()
+    s.add(D)
+    r = s.check()
+    differ = r == z3.sat
+    res, e = call(cgsat.solve, m, {"sat": True})
+    ctx.count("solve_calls")
+    if e is not None:
+        ctx.side("miter-solve-raises", False, sig_solve_raise(M, e), f"solve(miter, sat=1) raised {e!r}", det)
+    else:
+        ctx.side("miter-solve-verdict", (res is False) == (not differ), "miter:solve-verdict", f"solve(miter,{{sat:1}}) returned {'False' if res is False else 'a model'} but circuits {'differ' if differ else 'are equivalent'}", det)
+    ctx.count("pairs_equivalent" if not differ else "pairs_differing")
 
 
 def sig_solve_raise(M, e):
